@@ -73,12 +73,42 @@ def real_uuid4():
 def reset():
     CLOCK.reset()
     UUIDS.reset()
+    _set_tz(None)
+
+
+def _set_tz(name):
+    import os
+    import time
+    if name is None:
+        if os.environ.get("TZ") == os.environ.get("VERIF_TZ_DEFAULT", "UTC"):
+            return
+        name = os.environ.get("VERIF_TZ_DEFAULT", "UTC")
+    os.environ["TZ"] = name
+    time.tzset()
+
+
+class process_tz(object):
+    """the PROCESS time zone as an explored environment answer: `with env.process_tz("America/New_York"): ...` (always back to UTC afterwards; env.reset() does so too)"""
+    ZONES = ["UTC", "America/New_York", "Asia/Tokyo", "Australia/Lord_Howe", "CET-1CEST,M3.5.0,M10.5.0/3"]
+
+    def __init__(self, name):
+        self.name = name
+
+    def __enter__(self):
+        _set_tz(self.name)
+        return self
+
+    def __exit__(self, *a):
+        _set_tz(None)
+        return False
 
 
 def scratch_dir(tag):
     import os
     import tempfile
-    root = "/dev/shm" if os.path.isdir("/dev/shm") and os.access("/dev/shm", os.W_OK) else tempfile.gettempdir()
+    root = os.environ.get("VERIF_SCRATCH_ROOT")       # set by mc/run.py: removed by the parent process when the run ends
+    if not root or not os.path.isdir(root):
+        root = "/dev/shm" if os.path.isdir("/dev/shm") and os.access("/dev/shm", os.W_OK) else tempfile.gettempdir()
     return tempfile.mkdtemp(prefix="verif-%s-" % tag, dir=root)
 
 
